@@ -32,7 +32,17 @@ import (
 	"strings"
 	"syscall"
 	"time"
+
+	fianolog "github.com/linuxboot/fiano/pkg/log"
 )
+
+// quietLogger drops fiano's warnings and errors (hundreds of thousands of write calls per run);
+// Fatalf keeps its meaning: the process exits, which the parent observes as a crash.
+type quietLogger struct{}
+
+func (quietLogger) Warnf(format string, args ...interface{})  {}
+func (quietLogger) Errorf(format string, args ...interface{}) {}
+func (quietLogger) Fatalf(format string, args ...interface{}) { os.Exit(1) }
 
 // ---------- deterministic PRNG (splitmix64) ----------
 
@@ -167,6 +177,7 @@ func workerMain() {
 		_ = syscall.Setrlimit(syscall.RLIMIT_AS, &lim)
 	}
 	debug.SetMaxStack(256 << 20)
+	fianolog.DefaultLogger = quietLogger{}
 	in := bufio.NewReaderSize(os.Stdin, 1<<20)
 	// the protocol keeps the real stdout; the code under test prints to /dev/null
 	proto := os.Stdout
@@ -217,6 +228,10 @@ type worker struct {
 func startWorker() *worker {
 	cmd := exec.Command(os.Args[0], "worker")
 	cmd.Stderr = io.Discard
+	// temp files of the code under test (extract, save) go to a memory file system when there is one
+	if st, err := os.Stat("/dev/shm"); err == nil && st.IsDir() && os.Getenv("VERIF_KEEP_TMPDIR") == "" {
+		cmd.Env = append(os.Environ(), "TMPDIR=/dev/shm")
+	}
 	in, _ := cmd.StdinPipe()
 	outp, _ := cmd.StdoutPipe()
 	if err := cmd.Start(); err != nil {
